@@ -239,6 +239,10 @@ var snippets = []string{
 	"x='\\u2028'", "x='é😀'", "x=`é😀`", "x=/é😀/u", "é=1", "x='\\'\"'", "x=\"'\\\"\"", "x=0", "x=00", "x=07", "x=08", "x=0.0", "x=0e0", "x=1_000", "x=0b1", "x=0o7", "x=0XA", "x=1E3", "x=1e+3", "x=1e-3", "x=.1", "x=1.", "x=1.e3", "x=0n", "x=0x1n",
 	"x=1.toString", "x=1..toString()", "x=1.5.toFixed()", "x=08.a", "x=07.a", "x=1_0.a", "x=1e3.a", "x=1.e3.a", "x=0b1.a", "x=0o1.a", "x=1 in a", "x=1in a", "x=a?1.:2", "x=a?.1:2", "x=[1.,.1]", "x=1.+.1", "x=1. .a", "x=(1.).a", "x=(1)[a]", "x=1..a.b", "x=1.0.a()", "x=-1..a", "x=(-1).a", "x=1..a`b`",
 	"x=a\n/b/g", "x=a\n/b/", "x=a/b/g", "x=a/(/b/g)", "x=/a/ /b/", "x=/a/g/b", "x=/a/.b", "x=/a/[b]", "x=/a/(b)", "x=/[/]/", "x=/\\//", "x=/=/", "x=/=/.a", "x=a/=b", "x=a/ /=/", "x=a / / /", "x=[/a/,/b/]", "x=a?/b/:/c/", "x=a||/b/", "f(/a/)", "x={a:/b/}", "x=(/a/)", "x=!/a/", "x=/a/ in b", "x=/a/ instanceof b", "x=/ /", "x=/ a/", "x=+/a/", "x=a+/b/", "x=a+ /b/g", "x=a++/b/g", "x=a++ / /b/g",
+	// literals in every statement position; property names that the parser re-types
+	"while(a)x='s'", "while(a)`t`", "while(a)/r/", "while(a)1", "do 's';while(a)", "if(a)'s';else `t`", "for(;;)'s'", "for(a in b)`t`", "for(a of b)/r/", "with(a)'s'", "l:'s'",
+	"switch(a){case 's':`t`;default:/r/}", "try{'s'}catch{`t`}finally{/r/}", "while('s')`t`", "x={'5':1}", "class A{'5'(){}}", "x={'1.0':1,'.5':2,'5.':3,'010':4,'a':5,'if':6,'a-b':7}",
+	"let instanceof b", "let in b", "let\ninstanceof b",
 	"x=a<!--b\nc", "x=a\n-->b\nc", "x=a-->b", "x=a--\n>b", "x=a-- > b", "x=a< !--b", "<!--a\nb", "-->a\nb", "x=a</b/",
 }
 
